@@ -72,6 +72,7 @@ inductive Act where
   | drop (h : Holder) (i : Nat)     -- a finalizer / the compensating decrement runs: `(h, i)` goes, decref
   | store (c i : Nat)               -- a hosted method puts the argument proxy `(temp, i)` into container `c`
   | unstore (c i : Nat)             -- a hosted method takes `(item c, i)` out of container `c` (pop, del, clear, overwrite)
+  | fork (p q i : Nat)              -- `q`, forked from `p`, inherits `p`'s proxy object through memory; after-fork hook: `_incref`
   | call (p i : Nat)                -- client `p` calls a method through its proxy to `i`
   | exitBegin (p : Nat)
   | exitEnd (p : Nat)
@@ -158,6 +159,12 @@ def step (s : State) : Act → Option State
   | .unstore c i =>
     if (.item c, i) ∈ s.refs then
       some { s with refs := (.temp, i) :: s.refs.erase (.item c, i) }
+    else none
+  | .fork p q i =>
+    -- the copy in the child is a proxy object of its own: the stdlib's `_after_fork` runs `_incref`
+    -- (increment + finalizer) for it in the child; the parent's proxy is unaffected
+    if (.client p, i) ∈ s.refs ∧ s.stat p = .running ∧ s.stat q = .running ∧ s.hosted i = true then
+      some { incref s i with refs := (.client q, i) :: s.refs }
     else none
   | .call p i =>
     -- `Server._callmethod`: `self.id_to_obj[ident]` raises KeyError when the entry is gone
